@@ -828,7 +828,13 @@ def series_computation(
         name: linear_operator_wrapped(series) for name, series in series.items()
     }
 
+    start_data = {}
+
     def del_(series_name, index: int) -> None:
+        # Start values are not computed by the eval of the series: once deleted
+        # a later request would evaluate the definition instead.
+        if index in start_data.get(series_name, ()):
+            return
         series[series_name].pop(index, None)
         linear_operator_series[series_name].pop(index, None)
 
@@ -856,6 +862,7 @@ def series_computation(
         exec(compile(term.definition, filename="<string>", mode="exec"), eval_scope)
 
         series_data = data.get(term.start, None)
+        start_data[term.name] = series_data or {}
 
         series[term.name] = BlockSeries(
             eval=eval_scope["series_eval"],
